@@ -4,6 +4,8 @@ Abstract view of an ApplicationJobs J: plan(J) = J.planned_jobs (sequence number
 triggered), flight(J) = J.current_jobs (commands requested and not yet completed / given up).
 """
 from pyvc.spec import *
+
+GROUP = 'commander'   # contracts of one group use each other's contracts at call sites (pyvc/hooks.py contract_for_call)
 from contracts.c10 import target_info_known
 
 FAILED_STATES = (ProcessStates.FATAL, ProcessStates.STOPPED, ProcessStates.STOPPING, ProcessStates.UNKNOWN)
